@@ -99,6 +99,7 @@ PROPS = {
     "C11": {
         "harnesses": [
             {"pkg": "bt", "name": "VH_C11_Accounting", "opts": {"int": True}, "quick": {"params": {"IN": 1, "OUT": 2, "S": 2, "DEN": 0}}, "thorough": {"params": {"IN": 2, "OUT": 3, "S": 2, "DEN": 1}}},
+            {"pkg": "bt", "name": "VH_C11_CountBoundary", "opts": {"int": True}, "quick": {"params": {"DEN": 0}}, "thorough": {"params": {"DEN": 1}}},
             {"pkg": "bt", "name": "VH_C11_Estimate", "opts": {"int": True}, "quick": {"params": {"IN": 2, "SIGVAR": 2, "DEN": 0}}, "thorough": {"params": {"IN": 2, "SIGVAR": 40, "DEN": 1}}},
         ],
         "assumptions": [],
